@@ -28,5 +28,14 @@ meta = {
     "caught_by": kinds[:12],
     "no_failing_input_only": bool(viol) and all("no-failing-input-found" in v for v in viol),
 }
+try:
+    old = json.load(open(f"{d}/meta.json"))
+    for k in ("rebased", "also_caught_by"):
+        if k in old:
+            meta[k] = old[k]
+    if "deterministic" in old.get("confirmed_by", ""):
+        meta["confirmed_by"] = old["confirmed_by"]
+except Exception:
+    pass
 json.dump(meta, open(f"{d}/meta.json", "w"), indent=1)
 print(TAG, "caught" if viol else "MISSED", kinds[:6])
